@@ -477,7 +477,12 @@ func (w *world) execCtx(ctx context.Context, f []string) string {
 		dynMu.Lock()
 		dynKeys[unhexStr(f[2])] = pub
 		dynMu.Unlock()
-		return "ok"
+		// the name under which the account now exists (looked up by the key the service returned)
+		made := "?"
+		if wal, acc, err := w.fetcher.FetchAccountByKey(ctx, pub); err == nil && wal != nil && acc != nil {
+			made = hex.EncodeToString([]byte(wal.Name() + "/" + acc.Name()))
+		}
+		return "ok " + made
 	case "syncwrites":
 		return fmt.Sprintf("%v", w.rules.VerifSyncWrites())
 	case "export":
